@@ -58,6 +58,14 @@ CHECKS = {
          "Bob runs in the harness process; suspected violations are confirmed with the real bob script in fresh processes. "
          "git/url SCMs are covered by C12, sandboxing by C13.",
          "3 (C01)", "E1 bobproc, E2 projgen, E3 scripts, E4 treecanon"),
+ "C02": ("exploration",
+         "Hypothesis project + single-edit-neighbour generation; oracle = independent execution descriptor (script text Bob will run, strong environment, tools, argument descriptors) must be in bijection with the Variant-Ids over all steps of project and neighbours",
+         "For generated projects, 'twin' recipes with permuted Setup/Script/Finalize placement and 3-10 single-edit neighbours, "
+         "every pair of valid steps of equal kind is compared: equal descriptor <=> equal Variant-Id; re-parsing restores ids. "
+         "~1600 projects x ~5 neighbours per quick run.",
+         "Trusted: Bob's public graph API (getScript/getEnv/getTools/getArguments) as description of what a step runs with - the "
+         "digest code itself is not used. The listed known finding (Finalize order) and everything downstream of it is excluded and counted.",
+         "3 (C02)", "E2 projgen, E5 pkgdump"),
 }
 
 NOT_YET = {}
@@ -106,6 +114,8 @@ def main():
              "kind_free_text": "project model, Hypothesis strategies, YAML renderer with logical clock, edit operations"},
             {"name": "E3 scripts", "path": "vlib/scripts.py", "serves_properties": ["C01", "C05", "C06", "C07", "C16"],
              "kind_free_text": "content-recorder step scripts, event log, fail/kill switches"},
+            {"name": "E5 pkgdump", "path": "vlib/pkgdump.py", "serves_properties": ["C02", "C03", "C04", "C18", "C20"],
+             "kind_free_text": "in-process parse of a rendered project and dump of the package graph through the public API"},
             {"name": "E8 strlang", "path": "vlib/strlang.py", "serves_properties": ["C17"],
              "kind_free_text": "reference evaluator + renderer + strategies for the string/condition language"},
         ],
